@@ -148,7 +148,7 @@ func (s *Spy) Load(ctx context.Context, id string, created int64) (*ae.EnvelopeK
 		vx.Yield()
 	}
 	s.Loads++
-	if vx.Fault("meta", "Load") {
+	if vx.Fault("ext", "meta.Load") {
 		return nil, errors.New("vx: injected metastore Load failure")
 	}
 	return s.Inner.Load(ctx, id, created)
@@ -159,7 +159,7 @@ func (s *Spy) LoadLatest(ctx context.Context, id string) (*ae.EnvelopeKeyRecord,
 		vx.Yield()
 	}
 	s.Latests++
-	if vx.Fault("meta", "LoadLatest") {
+	if vx.Fault("ext", "meta.LoadLatest") {
 		return nil, errors.New("vx: injected metastore LoadLatest failure")
 	}
 	return s.Inner.LoadLatest(ctx, id)
@@ -170,7 +170,7 @@ func (s *Spy) Store(ctx context.Context, id string, created int64, ekr *ae.Envel
 		vx.Yield()
 	}
 	s.Stores++
-	if vx.Fault("meta", "Store") {
+	if vx.Fault("ext", "meta.Store") {
 		switch vx.Choice("storefault", 3) {
 		case 0:
 			return false, errors.New("vx: injected metastore Store failure (nothing written)")
@@ -222,7 +222,7 @@ type SpyKMS struct {
 
 func (k *SpyKMS) EncryptKey(ctx context.Context, b []byte) ([]byte, error) {
 	k.Encs++
-	if vx.Fault("kms", "EncryptKey") {
+	if vx.Fault("ext", "kms.EncryptKey") {
 		return nil, errors.New("vx: injected KMS EncryptKey failure")
 	}
 	return k.Inner.EncryptKey(ctx, b)
@@ -230,7 +230,7 @@ func (k *SpyKMS) EncryptKey(ctx context.Context, b []byte) ([]byte, error) {
 
 func (k *SpyKMS) DecryptKey(ctx context.Context, b []byte) ([]byte, error) {
 	k.Decs++
-	if vx.Fault("kms", "DecryptKey") {
+	if vx.Fault("ext", "kms.DecryptKey") {
 		return nil, errors.New("vx: injected KMS DecryptKey failure")
 	}
 	return k.Inner.DecryptKey(ctx, b)
@@ -269,6 +269,7 @@ var Policies = []PolicyChoice{
 	{90 * 24 * time.Hour, 60 * time.Minute, time.Minute},
 	{2 * time.Hour, 30 * time.Second, time.Second},
 	{90 * time.Second, time.Second, 0},
+	{2 * time.Hour, time.Second, time.Minute}, // precision coarser than the revoke-check interval
 }
 
 // Cache configurations.
@@ -354,6 +355,76 @@ func SameDRR(a, b *ae.DataRowRecord) bool {
 	if a.Key.ParentKeyMeta != nil {
 		ok = vx.And(ok, a.Key.ParentKeyMeta.Created == b.Key.ParentKeyMeta.Created)
 		ok = vx.And(ok, a.Key.ParentKeyMeta.ID == b.Key.ParentKeyMeta.ID)
+	}
+	return ok
+}
+
+// RefDecrypt is an independent reference decryptor: it walks DRR -> IK row -> SK row -> KMS over the
+// store contents using the AEAD directly (never the SDK's envelope code).
+func (e *Env) RefDecrypt(d *ae.DataRowRecord) ([]byte, bool) {
+	if d == nil || d.Key == nil || d.Key.ParentKeyMeta == nil {
+		return nil, false
+	}
+	ik := e.Store.Row(d.Key.ParentKeyMeta.ID, d.Key.ParentKeyMeta.Created)
+	if ik == nil || ik.ParentKeyMeta == nil {
+		return nil, false
+	}
+	sk := e.Store.Row(ik.ParentKeyMeta.ID, ik.ParentKeyMeta.Created)
+	if sk == nil {
+		return nil, false
+	}
+	skBytes, err := e.KMS.Inner.DecryptKey(Ctx, sk.EncryptedKey)
+	if err != nil {
+		return nil, false
+	}
+	ikBytes, err := e.Crypto.Decrypt(ik.EncryptedKey, skBytes)
+	if err != nil {
+		return nil, false
+	}
+	drk, err := e.Crypto.Decrypt(d.Key.EncryptedKey, ikBytes)
+	if err != nil {
+		return nil, false
+	}
+	pt, err := e.Crypto.Decrypt(d.Data, drk)
+	if err != nil {
+		return nil, false
+	}
+	return pt, true
+}
+
+// Snapshot copies the store rows (pointer identity and field values) for the insert-only oracle.
+type RowSnap struct {
+	ID      string
+	Created int64
+	Ptr     *ae.EnvelopeKeyRecord
+	Val     ae.EnvelopeKeyRecord
+	Key     []byte
+}
+
+func (s *Spy) Snapshot() []RowSnap {
+	var out []RowSnap
+	for id, m := range s.Inner.Envelopes {
+		for c, r := range m {
+			out = append(out, RowSnap{id, c, r, *r, append([]byte(nil), r.EncryptedKey...)})
+		}
+	}
+	return out
+}
+
+// Unchanged reports (without forking) that every row of the snapshot is still stored, same object, same key bytes
+// and same parent; the Revoked flag is excluded (operators flip it out of band).
+func (s *Spy) Unchanged(snap []RowSnap) bool {
+	ok := true
+	for _, r := range snap {
+		cur := s.Row(r.ID, r.Created)
+		if cur == nil || cur != r.Ptr {
+			return false
+		}
+		ok = vx.And(ok, vx.BytesEq(cur.EncryptedKey, r.Key))
+		ok = vx.And(ok, cur.Created == r.Val.Created)
+		if (cur.ParentKeyMeta == nil) != (r.Val.ParentKeyMeta == nil) {
+			return false
+		}
 	}
 	return ok
 }
